@@ -24,8 +24,11 @@ type Outcome struct {
 	Returned  bool   // the loop returned (normally or by panic)
 	Closes    int
 	ClosedAt  int
-	Writes    int
-	ConnsLeft int // Server.Conns() after the loop returned
+	// EndSeenAtClose: the server closed the connection only after the end of the
+	// stream had been reported to it
+	EndSeenAtClose bool
+	Writes         int
+	ConnsLeft      int // Server.Conns() after the loop returned
 }
 
 // FixedClock is the instant instrumented code sees as time.Now() in SEQ runs.
@@ -82,6 +85,7 @@ func RunConnTLS(server *redis.Server, conn *seq.Conn, tlsState *tls.ConnectionSt
 	out.Reply = conn.Out
 	out.Closes = conn.Closes
 	out.ClosedAt = conn.ClosedAt
+	out.EndSeenAtClose = conn.EndSeenAtClose
 	out.Writes = conn.Writes
 	if NoRegistryProbe {
 		return out
